@@ -14,10 +14,11 @@ theorem modify_append_left {α} (l : List α) (x : α) (b : Nat) (f : α → α)
     simp [hj, this]
 
 section eff
-variable (s : St) (i j b c p : Nat) (o : Outc) (sp : Option Nat)
+variable (s : St) (i j b c p : Nat) (o : Outc) (sp : Option Nat) (lk : Option Link)
 
 /-! setItemOut -/
 @[simp] theorem setItemOut_kind : (s.setItemOut i o).kind = s.kind := rfl
+@[simp] theorem setItemOut_keep : (s.setItemOut i o).keep = s.keep := rfl
 @[simp] theorem setItemOut_active : (s.setItemOut i o).active = s.active := rfl
 @[simp] theorem setItemOut_batches : (s.setItemOut i o).batches = s.batches := rfl
 @[simp] theorem setItemOut_bout : (s.setItemOut i o).bout b = s.bout b := rfl
@@ -30,6 +31,8 @@ variable (s : St) (i j b c p : Nat) (o : Outc) (sp : Option Nat)
   simp only [St.payload, St.setItemOut, List.getElem?_modify]; cases s.items[j]? <;> simp; split <;> rfl
 @[simp] theorem setItemOut_ispawn : (s.setItemOut i o).ispawn j = s.ispawn j := by
   simp only [St.ispawn, St.setItemOut, List.getElem?_modify]; cases s.items[j]? <;> simp; split <;> rfl
+@[simp] theorem setItemOut_ilink : (s.setItemOut i o).ilink j = s.ilink j := by
+  simp only [St.ilink, St.setItemOut, List.getElem?_modify]; cases s.items[j]? <;> simp; split <;> rfl
 theorem setItemOut_iout : (s.setItemOut i o).iout j = if j = i ∧ i < s.items.length then some o else s.iout j := by
   simp only [St.iout, St.setItemOut, List.getElem?_modify]
   by_cases h : i = j
@@ -42,12 +45,14 @@ theorem setItemOut_iout : (s.setItemOut i o).iout j = if j = i ∧ i < s.items.l
 
 /-! setBatchOut -/
 @[simp] theorem setBatchOut_kind : (s.setBatchOut b o).kind = s.kind := rfl
+@[simp] theorem setBatchOut_keep : (s.setBatchOut b o).keep = s.keep := rfl
 @[simp] theorem setBatchOut_active : (s.setBatchOut b o).active = s.active := rfl
 @[simp] theorem setBatchOut_items : (s.setBatchOut b o).items = s.items := rfl
 @[simp] theorem setBatchOut_iout : (s.setBatchOut b o).iout i = s.iout i := rfl
 @[simp] theorem setBatchOut_ibatch : (s.setBatchOut b o).ibatch i = s.ibatch i := rfl
 @[simp] theorem setBatchOut_payload : (s.setBatchOut b o).payload i = s.payload i := rfl
 @[simp] theorem setBatchOut_ispawn : (s.setBatchOut b o).ispawn i = s.ispawn i := rfl
+@[simp] theorem setBatchOut_ilink : (s.setBatchOut b o).ilink i = s.ilink i := rfl
 @[simp] theorem setBatchOut_len : (s.setBatchOut b o).batches.length = s.batches.length := by simp [St.setBatchOut]
 @[simp] theorem setBatchOut_bitems : (s.setBatchOut b o).bitems c = s.bitems c := by
   simp only [St.bitems, St.setBatchOut, List.getElem?_modify]; cases s.batches[c]? <;> simp; split <;> rfl
@@ -65,12 +70,14 @@ theorem setBatchOut_bout : (s.setBatchOut b o).bout c = if c = b ∧ b < s.batch
 
 /-! incRuns -/
 @[simp] theorem incRuns_kind : (s.incRuns b).kind = s.kind := rfl
+@[simp] theorem incRuns_keep : (s.incRuns b).keep = s.keep := rfl
 @[simp] theorem incRuns_active : (s.incRuns b).active = s.active := rfl
 @[simp] theorem incRuns_items : (s.incRuns b).items = s.items := rfl
 @[simp] theorem incRuns_iout : (s.incRuns b).iout i = s.iout i := rfl
 @[simp] theorem incRuns_ibatch : (s.incRuns b).ibatch i = s.ibatch i := rfl
 @[simp] theorem incRuns_payload : (s.incRuns b).payload i = s.payload i := rfl
 @[simp] theorem incRuns_ispawn : (s.incRuns b).ispawn i = s.ispawn i := rfl
+@[simp] theorem incRuns_ilink : (s.incRuns b).ilink i = s.ilink i := rfl
 @[simp] theorem incRuns_len : (s.incRuns b).batches.length = s.batches.length := by simp [St.incRuns]
 @[simp] theorem incRuns_bitems : (s.incRuns b).bitems c = s.bitems c := by
   simp only [St.bitems, St.incRuns, List.getElem?_modify]; cases s.batches[c]? <;> simp; split <;> rfl
@@ -88,12 +95,14 @@ theorem incRuns_runs : (s.incRuns b).runs c = if c = b ∧ b < s.batches.length 
 
 /-! clearItems -/
 @[simp] theorem clearItems_kind : (s.clearItems b).kind = s.kind := rfl
+@[simp] theorem clearItems_keep : (s.clearItems b).keep = s.keep := rfl
 @[simp] theorem clearItems_active : (s.clearItems b).active = s.active := rfl
 @[simp] theorem clearItems_items : (s.clearItems b).items = s.items := rfl
 @[simp] theorem clearItems_iout : (s.clearItems b).iout i = s.iout i := rfl
 @[simp] theorem clearItems_ibatch : (s.clearItems b).ibatch i = s.ibatch i := rfl
 @[simp] theorem clearItems_payload : (s.clearItems b).payload i = s.payload i := rfl
 @[simp] theorem clearItems_ispawn : (s.clearItems b).ispawn i = s.ispawn i := rfl
+@[simp] theorem clearItems_ilink : (s.clearItems b).ilink i = s.ilink i := rfl
 @[simp] theorem clearItems_len : (s.clearItems b).batches.length = s.batches.length := by simp [St.clearItems]
 @[simp] theorem clearItems_bout : (s.clearItems b).bout c = s.bout c := by
   simp only [St.bout, St.clearItems, List.getElem?_modify]; cases s.batches[c]? <;> simp; split <;> rfl
@@ -106,14 +115,32 @@ theorem clearItems_bitems : (s.clearItems b).bitems c = if c = b then [] else s.
   · have : ¬ c = b := fun e => h e.symm
     cases s.batches[c]? <;> simp [h, this]
 
+/-! clearUnlessKept -/
+variable (kp : Bool)
+@[simp] theorem clearUnlessKept_kind : (s.clearUnlessKept kp b).kind = s.kind := by cases kp <;> rfl
+@[simp] theorem clearUnlessKept_keep : (s.clearUnlessKept kp b).keep = s.keep := by cases kp <;> rfl
+@[simp] theorem clearUnlessKept_active : (s.clearUnlessKept kp b).active = s.active := by cases kp <;> rfl
+@[simp] theorem clearUnlessKept_items : (s.clearUnlessKept kp b).items = s.items := by cases kp <;> rfl
+@[simp] theorem clearUnlessKept_iout : (s.clearUnlessKept kp b).iout i = s.iout i := by cases kp <;> rfl
+@[simp] theorem clearUnlessKept_ibatch : (s.clearUnlessKept kp b).ibatch i = s.ibatch i := by cases kp <;> rfl
+@[simp] theorem clearUnlessKept_payload : (s.clearUnlessKept kp b).payload i = s.payload i := by cases kp <;> rfl
+@[simp] theorem clearUnlessKept_len : (s.clearUnlessKept kp b).batches.length = s.batches.length := by
+  cases kp <;> simp [St.clearUnlessKept]
+@[simp] theorem clearUnlessKept_bout : (s.clearUnlessKept kp b).bout c = s.bout c := by
+  cases kp <;> simp [St.clearUnlessKept]
+@[simp] theorem clearUnlessKept_runs : (s.clearUnlessKept kp b).runs c = s.runs c := by
+  cases kp <;> simp [St.clearUnlessKept]
+
 /-! pushBatch -/
 @[simp] theorem pushBatch_kind : s.pushBatch.kind = s.kind := rfl
+@[simp] theorem pushBatch_keep : s.pushBatch.keep = s.keep := rfl
 @[simp] theorem pushBatch_active : s.pushBatch.active = s.batches.length := rfl
 @[simp] theorem pushBatch_items : s.pushBatch.items = s.items := rfl
 @[simp] theorem pushBatch_iout : s.pushBatch.iout i = s.iout i := rfl
 @[simp] theorem pushBatch_ibatch : s.pushBatch.ibatch i = s.ibatch i := rfl
 @[simp] theorem pushBatch_payload : s.pushBatch.payload i = s.payload i := rfl
 @[simp] theorem pushBatch_ispawn : s.pushBatch.ispawn i = s.ispawn i := rfl
+@[simp] theorem pushBatch_ilink : s.pushBatch.ilink i = s.ilink i := rfl
 @[simp] theorem pushBatch_len : s.pushBatch.batches.length = s.batches.length + 1 := by simp [St.pushBatch]
 @[simp] theorem pushBatch_bout : s.pushBatch.bout c = s.bout c := by
   simp only [St.bout, St.pushBatch, List.getElem?_append]
@@ -135,15 +162,16 @@ theorem clearItems_bitems : (s.clearItems b).bitems c = if c = b then [] else s.
     by_cases h2 : c - s.batches.length = 0 <;> simp [h2]
 
 /-! pushItem -/
-@[simp] theorem pushItem_kind : (s.pushItem b p sp).kind = s.kind := rfl
-@[simp] theorem pushItem_active : (s.pushItem b p sp).active = s.active := rfl
-@[simp] theorem pushItem_blen : (s.pushItem b p sp).batches.length = s.batches.length := by simp [St.pushItem]
-@[simp] theorem pushItem_ilen : (s.pushItem b p sp).items.length = s.items.length + 1 := by simp [St.pushItem]
-@[simp] theorem pushItem_bout : (s.pushItem b p sp).bout c = s.bout c := by
+@[simp] theorem pushItem_kind : (s.pushItem b p sp lk).kind = s.kind := rfl
+@[simp] theorem pushItem_keep : (s.pushItem b p sp lk).keep = s.keep := rfl
+@[simp] theorem pushItem_active : (s.pushItem b p sp lk).active = s.active := rfl
+@[simp] theorem pushItem_blen : (s.pushItem b p sp lk).batches.length = s.batches.length := by simp [St.pushItem]
+@[simp] theorem pushItem_ilen : (s.pushItem b p sp lk).items.length = s.items.length + 1 := by simp [St.pushItem]
+@[simp] theorem pushItem_bout : (s.pushItem b p sp lk).bout c = s.bout c := by
   simp only [St.bout, St.pushItem, List.getElem?_modify]; cases s.batches[c]? <;> simp; split <;> rfl
-@[simp] theorem pushItem_runs : (s.pushItem b p sp).runs c = s.runs c := by
+@[simp] theorem pushItem_runs : (s.pushItem b p sp lk).runs c = s.runs c := by
   simp only [St.runs, St.pushItem, List.getElem?_modify]; cases s.batches[c]? <;> simp; split <;> rfl
-theorem pushItem_bitems : (s.pushItem b p sp).bitems c =
+theorem pushItem_bitems : (s.pushItem b p sp lk).bitems c =
     if c = b ∧ b < s.batches.length then s.bitems c ++ [s.items.length] else s.bitems c := by
   simp only [St.bitems, St.pushItem, List.getElem?_modify]
   by_cases h : b = c
@@ -153,13 +181,13 @@ theorem pushItem_bitems : (s.pushItem b p sp).bitems c =
     · simp [hl, List.getElem?_eq_none_iff.mpr (Nat.le_of_not_lt hl)]
   · have : ¬ c = b := fun e => h e.symm
     cases s.batches[c]? <;> simp [h, this]
-@[simp] theorem pushItem_iout : (s.pushItem b p sp).iout j = s.iout j := by
+@[simp] theorem pushItem_iout : (s.pushItem b p sp lk).iout j = s.iout j := by
   simp only [St.iout, St.pushItem, List.getElem?_append]
   by_cases h : j < s.items.length
   · simp [h]
   · simp only [h, if_false, List.getElem?_eq_none_iff.mpr (Nat.le_of_not_lt h)]
     by_cases h2 : j - s.items.length = 0 <;> simp [h2]
-theorem pushItem_ibatch : (s.pushItem b p sp).ibatch j = if j = s.items.length then b else s.ibatch j := by
+theorem pushItem_ibatch : (s.pushItem b p sp lk).ibatch j = if j = s.items.length then b else s.ibatch j := by
   simp only [St.ibatch, St.pushItem, List.getElem?_append]
   by_cases h : j < s.items.length
   · have : ¬ j = s.items.length := by omega
@@ -168,7 +196,7 @@ theorem pushItem_ibatch : (s.pushItem b p sp).ibatch j = if j = s.items.length t
     · simp [h2]
     · have : ¬ j - s.items.length = 0 := by omega
       simp [h, h2, this, List.getElem?_eq_none_iff.mpr (Nat.le_of_not_lt h)]
-theorem pushItem_payload : (s.pushItem b p sp).payload j = if j = s.items.length then p else s.payload j := by
+theorem pushItem_payload : (s.pushItem b p sp lk).payload j = if j = s.items.length then p else s.payload j := by
   simp only [St.payload, St.pushItem, List.getElem?_append]
   by_cases h : j < s.items.length
   · have : ¬ j = s.items.length := by omega
@@ -177,8 +205,17 @@ theorem pushItem_payload : (s.pushItem b p sp).payload j = if j = s.items.length
     · simp [h2]
     · have : ¬ j - s.items.length = 0 := by omega
       simp [h, h2, this, List.getElem?_eq_none_iff.mpr (Nat.le_of_not_lt h)]
-theorem pushItem_ispawn : (s.pushItem b p sp).ispawn j = if j = s.items.length then sp else s.ispawn j := by
+theorem pushItem_ispawn : (s.pushItem b p sp lk).ispawn j = if j = s.items.length then sp else s.ispawn j := by
   simp only [St.ispawn, St.pushItem, List.getElem?_append]
+  by_cases h : j < s.items.length
+  · have : ¬ j = s.items.length := by omega
+    simp [h, this]
+  · by_cases h2 : j = s.items.length
+    · simp [h2]
+    · have : ¬ j - s.items.length = 0 := by omega
+      simp [h, h2, this, List.getElem?_eq_none_iff.mpr (Nat.le_of_not_lt h)]
+theorem pushItem_ilink : (s.pushItem b p sp lk).ilink j = if j = s.items.length then lk else s.ilink j := by
+  simp only [St.ilink, St.pushItem, List.getElem?_append]
   by_cases h : j < s.items.length
   · have : ¬ j = s.items.length := by omega
     simp [h, this]
